@@ -46,6 +46,8 @@ type Finding struct {
 	What       string `json:"what"`
 	Input      string `json:"input,omitempty"`
 	Commit     string `json:"commit,omitempty"`
+	Demo       string `json:"demo,omitempty"`     // demonstration test (path under /verif) that fails while the defect exists
+	DemoPkg    string `json:"demo_pkg,omitempty"` // package directory (under /repo) the demonstration belongs to
 }
 
 type Unclaimed struct {
@@ -232,7 +234,7 @@ func (eng *Engine) runJobs(tag string, vjobs []vjob, timeout time.Duration, work
 			defer wg.Done()
 			sem <- struct{}{}
 			defer func() { <-sem }()
-			results[i] = eng.discharge(j.g, j.o, j.dir, j.idx, timeout, false)
+			results[i] = eng.discharge(j.g, j.o, j.dir, j.idx, timeout, eng.crossCheck)
 			results[i].gen = j.g
 			results[i].dir = j.dir
 			results[i].idx = j.idx
